@@ -63,8 +63,8 @@ func (k FaultKind) Applicable(fk FKind) bool {
 	return k != FNone
 }
 
-// Hard kinds: the failures listed by the C07 property text.  The others are probes.
-func (k FaultKind) Hard() bool { return k >= FTransport && k <= FCountMore }
+// Hard kinds: the failures listed by the C07 property text (NaN inside data is a non-JSON body).  The others are probes.
+func (k FaultKind) Hard() bool { return (k >= FTransport && k <= FCountMore) || k == FNaNData }
 
 // Request is one recorded subgraph request.
 type Request struct {
@@ -268,6 +268,18 @@ func (d *ds) Load(ctx context.Context, headers http.Header, input []byte) ([]byt
 	}
 	body := clean
 	var err error
+	if fault == FNaNData {
+		// every number printed as NaN (project) and one more NaN member in the data object: never plain JSON
+		i := strings.Index(body, `{"data":{`)
+		if i == 0 {
+			rest := body[len(`{"data":{`):]
+			if strings.HasPrefix(rest, "}") {
+				body = `{"data":{"zz":NaN` + rest
+			} else {
+				body = `{"data":{"zz":NaN,` + rest
+			}
+		}
+	}
 	switch fault {
 	case FTransport:
 		body, err = "", errors.New("lab: connection refused")
